@@ -505,10 +505,10 @@ def _sig(v):
 
 HARNESSES = [
     HarnessSpec('onestep', h_onestep, [{'n_pre': n} for n in range(5)] + [{'n_pre': n, 'kind': k} for n in (1, 2, 3) for k in ('method', 'eq_object')],
-                replay=r_onestep, fresh_pkg=True, signature=_sig),
-    HarnessSpec('history_plugins', h_history_plugins, _p_hist, replay=r_history_plugins, fresh_pkg=True, signature=_sig),
+                witness_replay=True, witness_every=3, replay=r_onestep, fresh_pkg=True, signature=_sig),
+    HarnessSpec('history_plugins', h_history_plugins, _p_hist, witness_replay=True, witness_every=40, replay=r_history_plugins, fresh_pkg=True, signature=_sig),
     HarnessSpec('history_contracts', h_history_contracts, lambda t: [{'length': n} for n in ((1, 2, 3, 4) if t == 'quick' else (1, 2, 3, 4, 5, 6))],
-                fresh_pkg=True, signature=_sig, replay=r_history_contracts),
+                fresh_pkg=True, signature=_sig, replay=r_history_contracts, witness_replay=True, witness_every=200),
     HarnessSpec('independence', h_independence, _p_indep, replay=r_independence, fresh_pkg=True, signature=_sig),
     HarnessSpec('caller_dicts', h_caller_dicts, fresh_pkg=True),
 ]
